@@ -194,11 +194,12 @@ Crt(a, k, n, sp) == IF sp = "std" THEN [a |-> a, k |-> k, n |-> n] ELSE [a |-> a
 NewCerts == { <<"k1", <<>>, "std">>, <<"k2", <<>>, "std">>, <<"k2", <<"ov">>, "std">>, <<"kp", <<>>, "std">>,
               <<"kp", <<"ov">>, "std">>, <<"kb", <<>>, "std">> }
             \cup (IF Wide THEN { <<"k1", <<"ov">>, "std">>, <<"k3", <<>>, "std">> } ELSE {})
-\* ... in another spelling (narrow universe: the first certificate on the first address only)
+\* ... in another spelling, on the first address: the first certificate in every spelling (+ in the wide universe
+\* an override of names on a re-labelled block, unreadable bytes in a re-labelled block, an unreadable spelling
+\* of the second certificate)
 SpelledCerts == { <<"k1", <<>>, sp>> : sp \in AltSpellings \cup BadSpellings }
-                \cup (IF Wide THEN { <<"k2", <<"ov">>, "old">>, <<"k2", <<>>, "bundle">>, <<"kp", <<"ov">>, "tru">>,
-                                     <<"kp", <<>>, "crlf">>, <<"k2", <<>>, "noend">> } ELSE {})
-SpelledAddrs == IF Wide THEN Addrs ELSE {"A1"}
+                \cup (IF Wide THEN { <<"k2", <<"ov">>, "old">>, <<"kp", <<"ov">>, "tru">>, <<"k2", <<>>, "noend">> } ELSE {})
+SpelledAddrs == {"A1"}
 CrtCmd(verb, a, x) == IF x[3] = "std" THEN [verb |-> verb, a |-> a, k |-> x[1], n |-> x[2]]
                       ELSE [verb |-> verb, a |-> a, k |-> x[1], n |-> x[2], sp |-> x[3]]
 RplCmd(a, old, x) == IF x[3] = "std" THEN [verb |-> "ReplaceCertificate", a |-> a, old |-> old, k |-> x[1], n |-> x[2]]
